@@ -1,0 +1,18 @@
+// Copyright 2026 The Mellium Contributors.
+// Use of this source code is governed by the BSD 2-clause
+// license that can be found in the LICENSE file.
+
+//go:build verif
+
+package xmpp
+
+import (
+	"mellium.im/xmpp/internal/verifhook"
+)
+
+// VerifSetYield installs the function that the scheduling hooks of this
+// module call (see internal/verifhook). It only exists in builds with the
+// "verif" tag.
+func VerifSetYield(f func(point string)) {
+	verifhook.Set(f)
+}
